@@ -387,8 +387,21 @@ def oracle_case(rng, n, kind, nl=0):
         ref = Hn @ v.numpy()
         d = ser(P, vec=tens_ser(v), kind=kind)
     else:
-        Ls = [torch.tensor([[complex(g(), g()), complex(g(), g())], [complex(g(), g()), complex(g(), g())]], dtype=tio.C128) * 0.5
-              for _ in range(nl)]
+        def jump():
+            kind_l = rng.choice(["dense", "dense", "diag-complex", "diag-complex", "lower", "upper", "diag-real"])
+            z = lambda: complex(g(), g()) * 0.5
+            if kind_l == "dense":
+                m = [[z(), z()], [z(), z()]]
+            elif kind_l == "diag-complex":      # exactly diagonal with non-real entries, e.g. diag(0.5, 0.5i)
+                m = rng.choice([[[0.5, 0], [0, 0.5j]], [[z(), 0], [0, z()]], [[1j * g(), 0], [0, g()]]])
+            elif kind_l == "diag-real":
+                m = [[g(), 0], [0, g()]]
+            elif kind_l == "lower":
+                m = [[0, 0], [z(), 0]]
+            else:
+                m = [[0, z()], [0, 0]]
+            return torch.tensor(m, dtype=tio.C128)
+        Ls = [jump() for _ in range(nl)]
         a = torch.tensor([[complex(g(), g()) for _ in range(2 ** n)] for _ in range(2 ** n)], dtype=tio.C128)
         rho = a + a.conj().T
         L = build_l(P, Ls)
